@@ -119,6 +119,13 @@ class ProgBase(plumpy.Process):
 
             self.add_state_event_callback(StateEventHook.ENTERED_STATE, entered)
 
+    def save_instance_state(self, out_state, save_context):
+        # (a process whose own save fails before it reaches the base class, when the harness arms it: ``_fail_save``)
+        pending, self._fail_save = getattr(self, '_fail_save', None), None
+        if pending is not None:
+            raise pending
+        super().save_instance_state(out_state, save_context)
+
     def on_paused(self, msg=None):
         super().on_paused(msg)
         rec = getattr(self, '_rec', None)
